@@ -106,9 +106,11 @@ impl Formatter {
                 .to_width_heuristics(self.config.whitespace.max_width),
         );
 
-        // Get the original trimmed source code.
+        // Get the original source code, without trailing whitespace.
+        // Leading whitespace must be kept: all the spans of `annotated_module`, which are used below
+        // to look up comments and newline sequences, are offsets into the untrimmed source.
         let module_kind_span = annotated_module.value.kind.span();
-        let src = module_kind_span.src().text.trim();
+        let src = module_kind_span.src().text.trim_end();
 
         // Formatted code will be pushed here with raw newline style.
         // Which means newlines are not converted into system-specific versions until `apply_newline_style()`.
